@@ -31,10 +31,11 @@ type asRes struct {
 }
 
 type floatRes struct {
-	as   float64
-	v    float64
-	ok   bool
-	bits int
+	as       float64
+	v        float64
+	ok       bool
+	wrongErr bool // CheckedAs failed with something other than fixed.ErrDoesNotFitInRequestedType itself
+	bits     int
 }
 
 type typ struct {
@@ -364,7 +365,8 @@ func asFloat64[T fixed.Dx, TO float32 | float64](bits int) func(raw *big.Int) fl
 	return func(raw *big.Int) floatRes {
 		f := f64.Int[T](raw.Int64())
 		c, err := f64.CheckedAs[T, TO](f)
-		return floatRes{as: float64(f64.As[T, TO](f)), v: float64(c), ok: err == nil, bits: bits}
+		return floatRes{as: float64(f64.As[T, TO](f)), v: float64(c), ok: err == nil,
+			wrongErr: err != nil && err != fixed.ErrDoesNotFitInRequestedType, bits: bits}
 	}
 }
 
@@ -372,7 +374,8 @@ func asFloat128[T fixed.Dx, TO float32 | float64](bits int) func(raw *big.Int) f
 	return func(raw *big.Int) floatRes {
 		f := mk128[T](raw)
 		c, err := f128.CheckedAs[T, TO](f)
-		return floatRes{as: float64(f128.As[T, TO](f)), v: float64(c), ok: err == nil, bits: bits}
+		return floatRes{as: float64(f128.As[T, TO](f)), v: float64(c), ok: err == nil,
+			wrongErr: err != nil && err != fixed.ErrDoesNotFitInRequestedType, bits: bits}
 	}
 }
 
@@ -598,6 +601,9 @@ func expView(s, got, ty, d string) string {
 	if s == "" || !isExp(t) {
 		return got
 	}
+	if longMantissa(t) {
+		return "long"
+	}
 	if ty == "64" {
 		if fl, err := strconv.ParseFloat(t, 64); err == nil {
 			m, _ := new(big.Float).SetInt(pow10(hx.Atoi(d))).Float64() // 10^D <= 10^16 is exact
@@ -608,6 +614,27 @@ func expView(s, got, ty, d string) string {
 		}
 	}
 	return got
+}
+
+// longMantissa reports the texts on which strconv.ParseFloat itself is not correctly rounded (its slow path keeps 800 digits
+// and loses the position of the decimal point beyond them): a decimal mantissa with more than 800 bytes in front of the
+// point, sign, underscores and leading zeros not counted.  Same definition as Model/FixedTextExp.lean `longMantissa`.
+func longMantissa(t string) bool {
+	body := t
+	if body != "" && (body[0] == '+' || body[0] == '-') {
+		body = body[1:]
+	}
+	if len(body) >= 3 && body[0] == '0' && (body[1] == 'x' || body[1] == 'X') {
+		return false
+	}
+	if i := strings.IndexAny(body, "eE"); i >= 0 {
+		body = body[:i]
+	}
+	body = strings.ReplaceAll(body, "_", "")
+	if i := strings.IndexByte(body, '.'); i >= 0 {
+		body = body[:i]
+	}
+	return len(strings.TrimLeft(body, "0")) > 800
 }
 
 type asArea struct{}
@@ -726,6 +753,8 @@ func (floatArea) Run(line string) string {
 	back, ok := new(big.Rat).SetString(text)
 	want := ok && back.Cmp(q) == 0
 	switch {
+	case got.wrongErr:
+		return fmt.Sprintf("FAIL CheckedAs of %s/%s to float%d fails with an error other than ErrDoesNotFitInRequestedType", raw, mult, got.bits)
 	case want && !got.ok:
 		return fmt.Sprintf("FAIL CheckedAs rejects %s/%s although float%d %s identifies it", raw, mult, got.bits, text)
 	case !want && got.ok:
